@@ -22,6 +22,9 @@ pub enum Kind {
     /// Symbolic link; `target` is the text written into the link (relative to the link's parent
     /// directory, or starting with `$R` for an absolute target inside the world).
     Link { target: String },
+    /// A named pipe: an entry that is neither a regular file, nor a directory, nor a link (what a
+    /// walk reports about an entry must not depend on the entry being one of those three).
+    Fifo,
 }
 
 #[derive(Serialize, Deserialize, Clone, Debug, PartialEq, Eq)]
